@@ -192,7 +192,8 @@ def mutate(rng, root, layout, info, klass):
         elif how == 'fifo':
             ops.append({'op': 'unlink', 'p': f})
             ops.append({'op': 'mkfifo', 'p': f})
-    elif klass in ('stray', 'stray-lookalike', 'stray-special', 'stray-manifest-name'):
+    elif klass in ('stray', 'stray-lookalike', 'stray-special', 'stray-socket',
+                   'stray-manifest-name'):
         dirs = [d for d in info['dirs']
                 if os.path.isdir(os.path.join(root, d))
                 and not any(mtext.comp_prefix(d, ig) for ig in info['ignores'])
@@ -231,9 +232,9 @@ def mutate(rng, root, layout, info, klass):
         if os.path.lexists(os.path.join(root, f)):
             return None
         rec['path'] = f
-        if klass == 'stray-special':
+        if klass in ('stray-special', 'stray-socket'):
             # a FIFO, or a UNIX socket (which cannot even be opened)
-            ops.append({'op': 'mksock' if rng.random() < 0.5
+            ops.append({'op': 'mksock' if (rng.random() < 0.5 or klass == 'stray-socket')
                         and len(os.path.basename(f).encode('utf8')) < 90
                         else 'mkfifo', 'p': f})
         elif klass == 'stray-manifest-name':
